@@ -152,7 +152,8 @@ func (c *Classifier) Classify(t *html.Node) (Type, Reason) {
 		}
 
 		// c) table cell has <abbr> element as a single child element.
-		tdChildren := dom.GetElementsByTagName(td, "*")
+		// (the children of the cell: what is inside the <abbr> doesn't matter)
+		tdChildren := dom.Children(td)
 		if len(tdChildren) == 1 && dom.TagName(tdChildren[0]) == "abbr" {
 			return c.logAndReturn(Data, OnlyHasAbbr)
 		}
